@@ -22,6 +22,8 @@ pub const INSUB_LINE: u64 = 800;
 pub const DEEP_LINE: u64 = 960;
 /// A subroutine that runs a loop over I (the variable the callers' loops use).
 pub const FORSUB_LINE: u64 = 850;
+/// A subroutine that consists of its RETURN only.
+pub const STUB_LINE: u64 = 870;
 
 fn p(items: Vec<PItem>) -> Stmt {
     Stmt::Print(items)
@@ -216,12 +218,21 @@ fn extra_templates() -> Vec<(&'static str, T)> {
         ("GOSUB insub", T::S(Stmt::Gosub(INSUB_LINE))),
         ("GOSUB deep", T::S(Stmt::Gosub(DEEP_LINE))),
         ("GOSUB forsub", T::S(Stmt::Gosub(FORSUB_LINE))),
+        ("GOSUB stub", T::S(Stmt::Gosub(STUB_LINE))),
         ("IF X=0 THEN PRINT 1/0", T::S(Stmt::If(bin(Eq, var("X"), num(0.0)), br(pe(bin(Div, num(1.0), num(0.0)))), None))),
         (
             "INPUT A(INT(RND(1)*3))",
             T::S(Stmt::Input(lvi("A", vec![Expr::Int(Box::new(bin(Mul, Expr::Rnd(Box::new(num(1.0))), num(3.0))))]))),
         ),
         ("PRINT A(0);A(1);A(2);RND(1)", T::S(p(vec![PItem::E(call("A", vec![num(0.0)])), PItem::Semi, PItem::E(call("A", vec![num(1.0)])), PItem::Semi, PItem::E(call("A", vec![num(2.0)])), PItem::Semi, PItem::E(Expr::Rnd(Box::new(num(1.0))))]))),
+        // ---- values family: how numbers turn into text (PRINT, READ into a string variable) ----
+        ("X=X-1", T::S(assign("X", bin(Sub, var("X"), num(1.0))))),
+        ("PRINT -X;X*-3", T::S(p(vec![PItem::E(un(Un::Neg, var("X"))), PItem::Semi, PItem::E(bin(Mul, var("X"), un(Un::Neg, num(3.0))))]))),
+        ("PRINT X/3;X*1E20;X/1E7", T::S(p(vec![PItem::E(bin(Div, var("X"), num(3.0))), PItem::Semi, PItem::E(bin(Mul, var("X"), num(1e20))), PItem::Semi, PItem::E(bin(Div, var("X"), num(1e7)))]))),
+        ("DATA -0,1000,.5,1E20", T::S(Stmt::Data(vec![DataItem::N(-0.0), DataItem::N(1000.0), DataItem::N(0.5), DataItem::N(1e20)]))),
+        ("READ Y$", T::S(Stmt::Read(vec![lv("Y$")]))),
+        ("READ X", T::S(Stmt::Read(vec![lv("X")]))),
+        ("PRINT Y$;X;", T::S(p(vec![PItem::E(var("Y$")), PItem::Semi, PItem::E(var("X")), PItem::Semi]))),
     ]
 }
 
@@ -274,9 +285,15 @@ pub fn forvar_menu() -> Vec<(&'static str, T)> {
     pick(&["K=K+1", "K=5", "FOR K=1 TO K+2", "FOR K=2 TO 8 STEP K", "FOR K=K TO 3", "PRINT K;", "NEXT K"])
 }
 
+/// Values on their way to text: signed zero, fractions, large and small magnitudes, numeric DATA
+/// items read into a string variable.
+pub fn values_menu() -> Vec<(&'static str, T)> {
+    pick(&["X=X+1", "X=X-1", "PRINT -X;X*-3", "PRINT X/3;X*1E20;X/1E7", "DATA -0,1000,.5,1E20", "READ Y$", "READ X", "PRINT Y$;X;"])
+}
+
 /// Statements that execute nothing (REM, DATA) between ones that do: what one call steps over.
 pub fn quiet_menu() -> Vec<(&'static str, T)> {
-    pick(&["REM c", "DATA 2", "PRINT X", "X=X+1", "GOTO next-but-one", "IF X THEN last", "READ A", "GOSUB sub", "END"])
+    pick(&["REM c", "DATA 2", "PRINT X", "X=X+1", "GOTO next-but-one", "IF X THEN last", "READ A", "GOSUB sub", "END", "GOSUB stub"])
 }
 
 /// A REM swallows the rest of its line: a layout that joins a statement after one does not say
@@ -310,6 +327,7 @@ pub fn layout(seq: &[T], joins: u32) -> ProgramAst {
     let mut uses_insub = false;
     let mut uses_deep = false;
     let mut uses_forsub = false;
+    let mut uses_stub = false;
     for (i, t) in seq.iter().enumerate() {
         let stmt = match t {
             T::S(s) => s.clone(),
@@ -328,6 +346,9 @@ pub fn layout(seq: &[T], joins: u32) -> ProgramAst {
         }
         if refs_line(&stmt, FORSUB_LINE) {
             uses_forsub = true;
+        }
+        if refs_line(&stmt, STUB_LINE) {
+            uses_stub = true;
         }
         prog.entry(line_of[i]).or_default().push(stmt);
     }
@@ -366,6 +387,10 @@ pub fn layout(seq: &[T], joins: u32) -> ProgramAst {
             ],
         );
         prog.insert(FORSUB_LINE + 10, vec![Stmt::Return]);
+    }
+    if uses_stub {
+        prog.insert(STUB_LINE - 5, vec![Stmt::End]);
+        prog.insert(STUB_LINE, vec![Stmt::Return]);
     }
     if uses_deep {
         prog.insert(955, vec![Stmt::End]);
